@@ -1,4 +1,5 @@
 import MlModel.Lemmas.Rebatch
+import MlModel.Lemmas.RebatchGen
 /-!
 # Witness for finding F-C19-assign (open): `Assign` + `batch_size`
 
@@ -21,6 +22,24 @@ theorem C19_assign_rebatch_witness :
         = [[⟨.list, [1, 21]⟩], [⟨.list, [41]⟩]] ∧
     assignInput.map nrows = [3] ∧
     ((treeFn 0 2 2 1 (mapRows sampleSum [.list]) assignInput).out.map nrows) ≠ assignInput.map nrows := by
+  decide +kernel
+
+/-! ## Contrast: error skipping applied AFTER the output re-batcher loses the carried rows
+
+Not a finding of the unchanged code — a witness that the place of the skipping in the chain matters,
+i.e. that `C19_treefn_skip_carry` is a statement about `map_ignore_error` sitting *between* the two
+re-batchers.  `treeFnSkipLast` is the chain with `iter_ignore_error` wrapped once around the output
+`rebatched_args` generator (seeded change C19-m6).  Same instance as the examples in
+`Properties/C19.lean`: groups [0,1] [2,3] [4,5], the call on [2,3] raises, `batch_size = 3`. -/
+
+/-- With the skipping at the end of the chain the failing call finalises the output re-batcher:
+rows 0 and 1 (returned by a successful call, waiting in `column_buffer`) and rows 4, 5 (never
+processed) are all lost — nothing is emitted and no error is reported; the real chain emits all
+four rows. -/
+theorem C19_skip_after_rebatch_witness :
+    treeFnSkipLast 2 3 2 2 sampleFailing sampleStream = [] ∧
+    (treeFnGen true 2 3 2 2 sampleFailing sampleStream).out.flatMap rowsOf
+      = [[0, 10], [1, 11], [4, 14], [5, 15]] := by
   decide +kernel
 
 end MlModel.C19
